@@ -1,6 +1,7 @@
 (* ContVecDefs.v — executable model of xalanc::XalanVector (Include/XalanVector.hpp) as it is:
    size / allocation / data with the growth policy, the three insert paths (at end, reallocating,
-   in-capacity with element shifting by doPushBack + std::copy_backward + std::copy/fill), erase by
+   in-capacity with element shifting by doPushBack + std::copy_backward + std::copy/fill; a value argument
+   that is one of the vector's own elements is copied first), erase by
    std::copy + pop_back, resize, reserve, operator=, swap, copy construction with an initial
    allocation — and the independent specification (plain list operations = std::vector).
    Definitions only.  Sizes, indices and element values are nat (small in every use).
@@ -60,21 +61,10 @@ Definition insert_list (fill : bool) (v : vec) (pos : nat) (src : list nat) : ve
       let d2 := blit (sub pos (sz - n) (vdata v1)) (pos + n) (vdata v1) in   (* copy_backward *)
       mkvec (blit src pos d2) (vcap v1).
 
-(* the same call with the value being a REFERENCE to element i of the vector itself, in-capacity
-   path only: the reference is read by std::fill after the elements were shifted *)
-Definition insert_fill_alias (v : vec) (pos n i : nat) : option vec :=
-  let sz := vsize v in
-  if ((pos <? sz) && (i <? sz) && (sz + n <=? vcap v))%bool then
-    let right := sz - pos in
-    if right <=? n then
-      let v1 := push_all v (repeat (nth i (vdata v) 0) (n - right)) in
-      let v2 := push_all v1 (sub pos sz (vdata v1)) in
-      Some (mkvec (blit (repeat (nth i (vdata v2) 0) right) pos (vdata v2)) (vcap v2))
-    else
-      let v1 := push_all v (sub (sz - n) sz (vdata v)) in
-      let d2 := blit (sub pos (sz - n) (vdata v1)) (pos + n) (vdata v1) in
-      Some (mkvec (blit (repeat (nth i d2 0) n) pos d2) (vcap v1))
-  else None.
+(* the same call with the value being a REFERENCE to element i of the vector itself: isOwnElement()
+   holds, the code makes a one-element copy and calls itself with the copy (likewise resize) *)
+Definition insert_alias (v : vec) (pos n i : nat) : vec :=
+  insert_list true v pos (repeat (nth i (vdata v) 0) n).
 
 Definition erase_range (v : vec) (a b : nat) : vec :=
   if a =? b then v
@@ -110,7 +100,8 @@ Inductive vop :=
 | VErase (p : nat) | VEraseR (a b : nat) | VResize (n x : nat) | VReserve (n : nat) | VClear
 | VAssignR (l : list nat) | VAt (i : nat) | VIdx (i : nat) | VSetIdx (i x : nat) | VFront | VBack | VRIter
 | VCopy (c : nat) | VAssign | VSelfAssign | VSwap | VSel (r : bool) | VNew (c : nat) | VNewN (n x : nat)
-| VNewR (l : list nat).
+| VNewR (l : list nat)
+| VInsA (p n i : nat) | VResizeA (n i : nat) | VPushA (i : nat) | VAssignN (n x : nat).
 
 Inductive ret := RNone | RNum (n : nat) | ROor | RList (l : list nat).
 
@@ -160,6 +151,10 @@ Definition vstep (s : vstate) (o : vop) : option (vstate * ret) :=
   | VNew c => Some (set_cur s (mkvec [] c), RNone)
   | VNewN k x => Some (set_cur s (ctor_fill k x), RNone)
   | VNewR l => Some (set_cur s (ctor_range l), RNone)
+  | VInsA p k i => if ((p <=? n) && (i <? n))%bool then Some (set_cur s (insert_alias v p k i), RNone) else None
+  | VResizeA k i => if i <? n then Some (set_cur s (resize v k (nth i (vdata v) 0)), RNone) else None
+  | VPushA i => if i <? n then Some (set_cur s (do_push_back v (nth i (vdata v) 0)), RNone) else None
+  | VAssignN k x => Some (set_cur s (insert_list true (clear v) 0 (repeat x k)), RNone)
   end.
 
 (* observation after an op: return value, size, capacity, elements of the current register *)
@@ -222,6 +217,10 @@ Definition lstep (s : lstate) (o : vop) : option (lstate * ret) :=
   | VNew _ => Some (set_cur_l s [], RNone)
   | VNewN k x => Some (set_cur_l s (repeat x k), RNone)
   | VNewR src => Some (set_cur_l s src, RNone)
+  | VInsA p k i => if ((p <=? n) && (i <? n))%bool then Some (set_cur_l s (ins_spec p (repeat (nth i l 0) k) l), RNone) else None
+  | VResizeA k i => if i <? n then Some (set_cur_l s (resize_spec k (nth i l 0) l), RNone) else None
+  | VPushA i => if i <? n then Some (set_cur_l s (l ++ [nth i l 0]), RNone) else None
+  | VAssignN k x => Some (set_cur_l s (repeat x k), RNone)
   end.
 
 Definition lobs : Type := option (ret * nat * list nat).
